@@ -24,6 +24,7 @@ func init() {
 			ruleTokenTable(r) // names that spell a function (duration_seconds, rate, ...) stay usable as label names: IsFunction is the set the lexer turns back into identifiers
 			ruleOpenLog(r)    // a label that sanitises to container_id never supplies the id the log is requested for
 			ruleKeywordLookupExact(r)
+			ruleParserOptionsReachLexer(r)
 		},
 	})
 }
